@@ -43,3 +43,40 @@ Theorem C18_predict_is_argmin : forall st Q,
 Proof. reflexivity. Qed.
 Theorem C18_jaccard_symmetric : forall a b, jaccard_f a b = jaccard_f b a.
 Proof. exact jaccard_sym. Qed.
+
+(* ---- the wrappers' transform / predict (Proofs/SimMore.v): shape and entries of transform, the
+   Jaccard distance as the correctly rounded |a xor b| / |a or b| = 1 - Tanimoto, its range, and
+   the range of predicted labels *)
+From BB Require Import Proofs.SimMore.
+From Coq Require Import Reals.
+From Flocq Require Import Core BinarySingleNaN.
+From Flocq Require Import IEEE754.PrimFloat.
+From BB Require Import Proofs.FloatFacts Proofs.BitsFacts.
+Theorem C18_sk_transform_shape : forall st Q,
+  length (sk_transform st Q) = length Q /\
+  Forall (fun row => length row = length (sk_centers st)) (sk_transform st Q).
+Proof. exact sk_transform_shape. Qed.
+Theorem C18_sk_transform_entry : forall st Q i k,
+  (i < length Q)%nat -> (k < length (sk_centers st))%nat ->
+  nth k (nth i (sk_transform st Q) []) 0%float =
+  jaccard_f (nth i Q []) (nth k (sk_centers st) []).
+Proof. exact sk_transform_entry. Qed.
+Theorem C18_jaccard_is_one_minus_tanimoto_exact : forall (a b : fpv),
+  length a = length b -> Z.of_nat (length a) < 2 ^ 52 -> 0 < card (orv a b) ->
+  card (xorv a b) = card (orv a b) - card (andv a b) /\
+  is_finite (Prim2B (jaccard_f a b)) = true /\
+  B2R (Prim2B (jaccard_f a b)) =
+    rnd64 (IZR (card (xorv a b)) / IZR (card (orv a b)))%R /\
+  (IZR (card (xorv a b)) / IZR (card (orv a b)) =
+   1 - IZR (card (andv a b)) / IZR (card (orv a b)))%R.
+Proof. exact jaccard_is_one_minus_tanimoto_exact. Qed.
+Theorem C18_jaccard_range : forall (a b : fpv),
+  Z.of_nat (length a) < 2 ^ 52 -> Z.of_nat (length b) < 2 ^ 52 ->
+  is_nan_f (jaccard_f a b) = false /\
+  PrimFloat.leb 0 (jaccard_f a b) = true /\ PrimFloat.leb (jaccard_f a b) 1 = true.
+Proof. exact jaccard_range. Qed.
+Theorem C18_sk_predict_range : forall st Q,
+  sk_centers st <> [] ->
+  length (sk_predict st Q) = length Q /\
+  Forall (fun l => 1 <= l <= zlen (sk_centers st)) (sk_predict st Q).
+Proof. exact sk_predict_range. Qed.
